@@ -89,3 +89,13 @@ Example C07_schema_rejects_bad_documents :
                             (JObj [(lit "blocks"%string, JList []); (lit "filename"%string, JInt 3)])))
           (seq 0 60) = true.
 Proof. vm_compute. reflexivity. Qed.
+
+(* Tie of the writer to the current source, for ALL inner constants at any nesting: for each kind of constant the first branch
+   of value_to_json that applies (isinstance tests in source order, bool being an int, `value == ...` for Ellipsis) is
+   re-translated on every run (Gen/SrcToJson.v) - the inf / nan forms of floats, the +-2^53 bounds and the decimal / hexadecimal
+   text of big ints, the {"string": ...} form of strings that are not valid UTF-8, complex parts, bytes, tuples as lists,
+   frozensets - and is the model's iconst_to_json. *)
+From PCD Require Gen.SrcToJson Proofs.SrcToJsonTie.
+Theorem C07_constant_writer_is_the_source : forall k, PCD.Gen.SrcToJson.to_json k = iconst_to_json k.
+Proof. exact SrcToJsonTie.to_json_tie. Qed.
+Print Assumptions C07_constant_writer_is_the_source.
